@@ -388,6 +388,10 @@ def handleScorePsms (args impl : List String) : Option Reply := do
           && closeF64 (ln1pRef64 (Float.ofNat q.peptideLen)) a.lnPeptideLen 16)
       if badLn || badLn64 then "bad:ln1p_value" else
       if fitted && (nd == 0 || nt == 0 || ps.any transformNonFinite) then "bad:fitted_despite_unfittable_input" else
+      -- a fittable model is fitted: the model's own run of score_psms (bit-exact on the unchanged code) fits the
+      -- table with finite scores, so the implementation has no excuse to return None (e.g. a mass-error KDE with
+      -- a single bin under a narrow dalton tolerance)
+      if !fitted && (match fit with | some sc => sc.all Float32.isFinite | none => false) then "bad:fittable_not_fitted" else
       -- the guards of the feature transform: a value they replace (poisson whose ln_1p(-poisson) is not
       -- finite -> 3.5; delta_rt/ims_model outside [0.001, 0.999], incl. ±inf -> clamped) must not keep a
       -- fittable set from being fitted. `fit` is the model's run WITH the guards (theorem
@@ -628,6 +632,19 @@ def handle (op : String) (args impl : List String) : Option Reply :=
   | "ldabig" => handleLdaBig args impl
   | "fdrrun" => handleFdrRun impl
   | "scorepsmst" => handleScorePsms (args.drop 1) impl
+  | "scorepsmstol" =>
+    -- `kind lo hi` then the scorepsms request; reply `bins` then the scorepsms reply. The bin count the harness
+    -- used for the KDE data must be the one the model derives from the tolerance (`massModelBins`)
+    match args, impl with
+    | k :: lo :: hi :: rest, b :: irest =>
+      (match k.toNat?, lo.toNat?, hi.toNat?, b.toNat? with
+       | some k, some lo, some hi, some b =>
+         let want := massModelBins k (Float32.ofBits lo.toUInt32) (Float32.ofBits hi.toUInt32)
+         (handleScorePsms rest irest).map fun r =>
+           { r with model := toString want ++ " " ++ r.model, agree := r.agree && b == want }
+       | _, _, _, _ => none)
+    | _, ["panic"] => some { model := "-", agree := false, spec := "bad:panic" }
+    | _, _ => none
   | _ => none
 
 end Sage.C15
